@@ -2,7 +2,7 @@
 model phase : Annex F placement state machine for all 24 sizes (every module assigned exactly once or the fixed pattern), size-table laws,
               encoder model of ASCII encodation + 253-state padding || reader automaton over class strings (MC_DM)
 trace valid.: every image is read by the reference reader of DM.tla (TraceDM)"""
-import vlib, onedim, gen
+import vlib, onedim, gen, encconf
 
 NDATA = [3, 5, 8, 12, 18, 22, 30, 36, 44, 62, 86, 114, 144, 174, 204, 280, 368, 456, 576, 696, 816, 1050, 1304, 1558]
 
@@ -81,6 +81,10 @@ def run(tier):
     chk.add_model([dict(module="MC_DM.tla", cfg="MC_DM_quick.cfg" if quick else "MC_DM_thorough.cfg", workers=8, timeout=3000, heap="6g")])
     drive = vlib.build_harness(chk.work)
     jobs = dm_jobs(chk.rng, quick)
+    # encoder-model conformance (tools/encconf.py): encodeText / addPadding against DMEnc over MC_DM's state space
+    wrong, drift = encconf.conformance(chk, "dm", quick)
+    for c in wrong + drift:
+        jobs.append(gen.enc("dm", list(c), ()))
     evs, extras = onedim.judge(chk, drive, jobs, "TraceDM", "TraceDM.cfg", 12 if quick else 16, wanted, heap="5g", timeout=6000)
     ok = [e for e in evs if e["res"]["kind"] == "ok"]
     chk.cov["symbols_decoded"] = len(ok)
